@@ -5,7 +5,8 @@ PATCH="$1"; shift
 cd /repo || exit 2
 [ -z "$(git status --porcelain)" ] || { echo "repo not clean"; exit 2; }
 git apply "$PATCH" || { echo "patch does not apply"; exit 2; }
-trap 'git -C /repo checkout -- . ; git -C /repo clean -fdq -- src tests examples 2>/dev/null' EXIT
+KEEP=$(mktemp -d /var/tmp/evid.XXXXXX); cp -r /verif/evidence "$KEEP/"
+trap 'git -C /repo checkout -- . ; git -C /repo clean -fdq -- src tests examples 2>/dev/null; rm -rf /verif/evidence; cp -r "$KEEP/evidence" /verif/evidence; rm -rf "$KEEP"' EXIT
 cd /verif
 for p in "$@"; do
   out=$(./check "$p" quick 2>&1); rc=$?
